@@ -181,13 +181,14 @@ theorem checkDesignation_sound (D : Doc) (ret : Url) (s : NodeId) (ref : String)
   | panic => rw [hp] at h; simp at h
   | fuel => rw [hp] at h; simp at h
 
-/-- check hypothesis D against a table of certificates (`cert id false` for `$ref`, `cert id true` for `$dynamicRef`) -/
+/-- check hypothesis D against a table of certificates (`cert id false` for `$ref`, `cert id true` for `$dynamicRef`,
+    which is looked at in a 2020-12 document only) -/
 def checkRefs (D : Doc) (ret : Url) (nodes : List NodeId) (cert : NodeId → Bool → DesigCert) : Bool :=
   nodes.all fun id =>
     match D.st.get? id with
     | some n =>
       (n.ref == "" || checkDesignation D ret id n.ref (cert id false)) &&
-      (n.dynamicRef == "" || checkDesignation D ret id n.dynamicRef (cert id true))
+      (n.dynamicRef == "" || D.draft != .d2020 || checkDesignation D ret id n.dynamicRef (cert id true))
     | none => true
 
 theorem checkRefs_sound (D : Doc) (ret : Url) (nodes : List NodeId) (cert : NodeId → Bool → DesigCert)
@@ -197,9 +198,10 @@ theorem checkRefs_sound (D : Doc) (ret : Url) (nodes : List NodeId) (cert : Node
   intro id hid n hn
   have := h id hid
   rw [hn] at this
-  simp only [Bool.and_eq_true, Bool.or_eq_true, beq_iff_eq] at this
+  simp only [Bool.and_eq_true, Bool.or_eq_true, beq_iff_eq, bne_iff_ne] at this
   exact ⟨fun hne => ⟨_, checkDesignation_sound D ret id n.ref _ (this.1.resolve_left hne)⟩,
-    fun hne => ⟨_, checkDesignation_sound D ret id n.dynamicRef _ (this.2.resolve_left hne)⟩⟩
+    fun h20 hne => ⟨_, checkDesignation_sound D ret id n.dynamicRef _
+      (this.2.resolve_left (fun h => h.elim hne (fun h => h h20)))⟩⟩
 
 
 /-! ### documents without `$id` (whatever the retrieval URI) -/
